@@ -64,6 +64,7 @@ let exec toks =
   | "fromckc" -> s_n (from_ckc (List.hd (nums ())))
   | "frombc" -> s_n (from_binary_card (List.hd (nums ())))
   | "deckget" -> s_res s_n (deck_get (List.hd (nums ())))
+  | "isvalid" -> s_b (is_valid (List.tl (nums ())))
   | "valid" ->
       let ws = List.tl (nums ()) in
       String.concat " " [ s_b (is_valid ws); s_b (is_corrupt ws); s_b (are_unique ws); s_b (contain_blank ws) ]
@@ -94,6 +95,27 @@ let exec toks =
       let vv = hand_rank_value_validated c ws in
       let base = [ s_res s_n hrv; s_res s_n hrv; s_res (fun (x, _) -> s_n x) (hrvh c ws); s_res s_n vv; s_res s_n vv ] in
       String.concat " " (if n = 5 then base @ [ s_res s_n (evaluate_five_cards c ws) ] else base)
+  | "best" ->
+      (* C02 projection: every entry point = the lowest non-zero value among the five-slot sub-hands *)
+      let v = nums () in
+      let ws = List.tl v in
+      let rec subs k l = if k = 0 then [ [] ] else match l with [] -> [] | x :: r -> List.map (fun s -> x :: s) (subs (k - 1) r) @ subs k r in
+      let lt a b = Int64.unsigned_compare (int64_of_n a) (int64_of_n b) < 0 in
+      let exception Pan in
+      (try
+         let m =
+           List.fold_left
+             (fun m five ->
+               match hand_rank_value c five with
+               | Ok x -> if x <> N0 && (m = N0 || lt x m) then x else m
+               | _ -> raise Pan)
+             N0 (subs 5 ws)
+         in
+         let eqr r = match r with Ok x -> s_b (x = m) | _ -> "P" in
+         let hrv = hand_rank_value c ws in
+         let vv = hand_rank_value_validated c ws in
+         String.concat " " [ eqr hrv; eqr hrv; (match hrvh c ws with Ok (x, _) -> s_b (x = m) | _ -> "P"); eqr vv; eqr vv ]
+       with Pan -> "P P P P P")
   | "vrank" ->
       let v = nums () in
       let n = int_of_n (List.hd v) in
@@ -171,6 +193,15 @@ let exec toks =
         [ s_b (is_flush ws); s_b (is_straight ws); s_b (is_straight_flush ws); s_b (is_wheel ws);
           s_n (or_rank_bits ws); s_n (and_bits ws); s_n (or_bits ws); s_res s_n (multiply_primes c ws);
           s_b (evaluate_is_flush ws); s_n (evaluate_or_rank_bits ws) ]
+  | "pred5p" ->
+      let ws = nums () in
+      let f = is_flush ws and s = is_straight ws and sf = is_straight_flush ws in
+      let name = match hand_rank_value c ws with Ok v -> Some (determine_name v) | _ -> None in
+      let is a b = match name with Some n -> Some (n = a || n = b) | None -> None in
+      String.concat " "
+        [ s_b f; s_b s; s_b sf; s_b (is_wheel ws); s_b (evaluate_is_flush ws = f); s_b (evaluate_or_rank_bits ws = or_rank_bits ws);
+          s_b (is nAME_FLUSH nAME_STRAIGHT_FLUSH = Some f); s_b (is nAME_STRAIGHT nAME_STRAIGHT_FLUSH = Some s);
+          s_b (is nAME_STRAIGHT_FLUSH nAME_STRAIGHT_FLUSH = Some sf) ]
   | "sort" ->
       let ws = List.tl (nums ()) in
       Printf.sprintf "%s | %s" (s_words (sort_desc ws)) (s_words (sort_desc ws))
@@ -224,6 +255,28 @@ let exec toks =
             [ s_cmp (hr_cmp x y); s_cmp (hr_cmp x y); s_b (hr_eqb x y); s_b (not (hr_eqb x y));
               s_b (hr_lt x y); s_b (hr_le x y); s_b (hr_gt x y); s_b (hr_ge x y) ]
       | _ -> failwith "hrcmp")
+  | "hrcmpp" -> (
+      match nums () with
+      | [ a; b ] ->
+          let inval v = v = N0 || Int64.compare (int64_of_n v) 7462L > 0 in
+          let x = hr_from a and y = hr_from b in
+          let c = hr_cmp x y in
+          if inval a && inval b then
+            let opp = function Eq -> Eq | Lt -> Gt | Gt -> Lt in
+            String.concat " "
+              [ "I"; s_b ((c = Eq) = hr_eqb x y); s_b (hr_cmp y x = opp c); "1"; s_b (hr_eqb x y = (a = b)); "1";
+                s_b (hr_lt x y = (c = Lt)); s_b (hr_le x y = (c <> Gt)); s_b (hr_gt x y = (c = Gt)); s_b (hr_ge x y = (c <> Lt)) ]
+          else
+            String.concat " "
+              [ s_cmp c; s_cmp c; s_b (hr_eqb x y); s_b (not (hr_eqb x y)); s_b (hr_lt x y); s_b (hr_le x y); s_b (hr_gt x y); s_b (hr_ge x y) ]
+      | _ -> failwith "hrcmpp")
+  | "hrtri" -> (
+      match nums () with
+      | [ a; b; d ] ->
+          let x = hr_from a and y = hr_from b and z = hr_from d in
+          let le p q = hr_cmp p q <> Gt in
+          String.concat " " [ s_b ((not (le x y && le y z)) || le x z); s_b (hr_cmp x y <> Eq || hr_cmp x z = hr_cmp y z) ]
+      | _ -> failwith "hrtri")
   | "parsecard" ->
       let s = nums () in
       let r, su = get_rank_and_suit s in
@@ -234,7 +287,7 @@ let exec toks =
       let s = List.tl v in
       let r = hand_from_index (nat_of_int n) s in
       let first =
-        match r with None -> Printf.sprintf "None %s" (s_n eRR_INVALID_INDEX) | Some ws -> "Some " ^ s_words ws in
+        match r with None -> "None" | Some ws -> "Some " ^ s_words ws in
       if n = 5 then first ^ (match r with None -> " | None" | Some ws -> " | Some " ^ s_words ws) else first
   | "bcindex" -> s_n (bc_from_index (nums ()))
   | "render" ->
